@@ -32,11 +32,10 @@ func runC08(w *World, r *Report, tier string) {
 	// ---- R1
 	type sender struct {
 		key     string
-		whole   func(fn *ssa.Function, c ssa.CallInstruction) (bool, string)
+		whole   func(fn *ssa.Function, c ssa.CallInstruction, a ssa.Value) (bool, string)
 		viaSend bool
 	}
-	wholeMarshal := func(fn *ssa.Function, c ssa.CallInstruction) (bool, string) {
-		a := c.Common().Args[len(c.Common().Args)-1]
+	wholeMarshal := func(fn *ssa.Function, c ssa.CallInstruction, a ssa.Value) (bool, string) {
 		if ex, ok := a.(*ssa.Extract); ok && ex.Index == 0 {
 			if mc, ok := ex.Tuple.(*ssa.Call); ok && w.callKey(mc) == "encoding/xml.Marshal" {
 				// the marshalled value is the packet parameter
@@ -55,15 +54,13 @@ func runC08(w *World, r *Report, tier string) {
 		}
 		return false, "the written buffer is not the whole result of xml.Marshal: " + a.String()
 	}
-	wholeString := func(fn *ssa.Function, c ssa.CallInstruction) (bool, string) {
-		a := c.Common().Args[len(c.Common().Args)-1]
+	wholeString := func(fn *ssa.Function, c ssa.CallInstruction, a ssa.Value) (bool, string) {
 		if cv, ok := a.(*ssa.Convert); ok && isParamOf(cv.X, fn) {
 			return true, "writes []byte(packet) of the whole string parameter"
 		}
 		return false, "the written bytes are not the whole string parameter: " + a.String()
 	}
-	wholeParam := func(fn *ssa.Function, c ssa.CallInstruction) (bool, string) {
-		a := c.Common().Args[len(c.Common().Args)-1]
+	wholeParam := func(fn *ssa.Function, c ssa.CallInstruction, a ssa.Value) (bool, string) {
 		if isParamOf(a, fn) {
 			return true, "writes its parameter unchanged"
 		}
@@ -110,16 +107,18 @@ func runC08(w *World, r *Report, tier string) {
 				bad = fmt.Sprintf("a path that can report success performs %d writes (return at %s)", n, w.ipos(ret))
 				return
 			}
-			for _, in := range path {
+			forPath(path, func(i int, in ssa.Instruction) {
 				if notLog(in) {
 					if _, isCall := in.(*ssa.Call); !isCall {
 						bad = "the write is deferred or asynchronous"
 					}
-					if ok, why := s.whole(fn, asCall(in)); !ok {
+					args := asCall(in).Common().Args
+					// what is written, as this path determines it (through the parameters of walked-through helpers)
+					if ok, why := s.whole(fn, asCall(in), rvI(args[len(args)-1], i)); !ok {
 						bad = why
 					}
 				}
-			}
+			})
 		})
 		if err != nil {
 			r.Undecided("R1", s.key, w.pos(fn.Pos()), err.Error())
@@ -198,7 +197,8 @@ func runC08(w *World, r *Report, tier string) {
 			}
 			for _, in := range path {
 				if notLog(in) {
-					if ok, why := wholeParam(fn, asCall(in)); !ok {
+					wargs := asCall(in).Common().Args
+					if ok, why := wholeParam(fn, asCall(in), rvAny(wargs[len(wargs)-1])); !ok {
 						bad = why
 					}
 					// error of the inner write is what is returned
@@ -332,7 +332,7 @@ func c08StreamLogger(w *World, r *Report) {
 				bad = "loop of unknown shape"
 				return
 			}
-			res := valueOnPath(rvI(rres(path, ret)[1], len(path)-1), path)
+			res := resolveOn(rres(path, ret)[1], len(path)-1, path)
 			if !isNilConst(res) {
 				// an error that this path has found non-nil, or a constructed one: not a success path
 				if _, isC := res.(*ssa.Const); isC {
